@@ -415,20 +415,25 @@ class Beam(_Simu):
         tic = Tic()
 
         if nodes.size > 1:
-            # For each direction, we'll apply the conditions
+            # For each direction, we'll apply the conditions.
+            # n nodes share an unknown through n-1 independent conditions u_0 - u_i = 0
+            # (a joint where more than two members meet gives more than two nodes).
+            nodes = nodes.ravel()
             for d, dir in enumerate(unknowns):
-                dofs = self.Bc_dofs_nodes(nodes, [dir], problemType)
+                for node in nodes[1:]:
+                    pair = np.asarray([nodes[0], node])
+                    dofs = self.Bc_dofs_nodes(pair, [dir], problemType)
 
-                new_LagrangeBc = LagrangeCondition(
-                    problemType,
-                    nodes,
-                    dofs,
-                    [dir],
-                    np.asarray([0], dtype=float),
-                    np.asarray([1, -1], dtype=float),
-                    description,
-                )
-                self._Bc_Add_Lagrange(new_LagrangeBc)
+                    new_LagrangeBc = LagrangeCondition(
+                        problemType,
+                        pair,
+                        dofs,
+                        [dir],
+                        np.asarray([0], dtype=float),
+                        np.asarray([1, -1], dtype=float),
+                        description,
+                    )
+                    self._Bc_Add_Lagrange(new_LagrangeBc)
         else:
             self.add_dirichlet(nodes, [0] * len(unknowns), unknowns)
 
